@@ -475,6 +475,8 @@ pub fn weights(mix: &str) -> Vec<(&'static str, u32)> {
         "recycle" => vec![("new", 22), ("append_value", 14), ("move", 16), ("tops", 4), ("fail", 4), ("detach", 3), ("remove", 20), ("remove_subtree", 10), ("set", 3), ("observe", 9), ("round_trip", 1), ("clone_swap", 1)],
         "fail" => vec![("new", 8), ("append_value", 10), ("move", 14), ("tops", 4), ("fail", 44), ("detach", 4), ("remove", 8), ("remove_subtree", 4), ("set", 2), ("observe", 2)],
         "tops" => vec![("new", 10), ("append_value", 8), ("move", 14), ("tops", 34), ("fail", 6), ("detach", 6), ("remove", 12), ("remove_subtree", 5), ("set", 2), ("observe", 3)],
+        // large subtrees move, leave and come back; few plain allocations (the tree is already there)
+        "bushy" => vec![("new", 4), ("append_value", 6), ("move", 40), ("tops", 6), ("fail", 10), ("detach", 6), ("remove", 10), ("remove_subtree", 5), ("set", 1), ("observe", 10), ("clone_swap", 1), ("round_trip", 1)],
         // no serde / clone events: identical event sequences under every feature set (C17)
         "c17" => vec![("new", 14), ("append_value", 10), ("move", 24), ("tops", 8), ("fail", 10), ("detach", 6), ("remove", 12), ("remove_subtree", 6), ("set", 4), ("clear", 1), ("reserve", 2), ("observe", 3)],
         "values" => vec![("new", 12), ("append_value", 10), ("move", 14), ("tops", 4), ("fail", 4), ("detach", 4), ("remove", 10), ("remove_subtree", 5), ("set", 20), ("clear", 1), ("reserve", 6), ("clone_swap", 5), ("round_trip", 5)],
@@ -596,6 +598,55 @@ fn run_with<P: Payload + Clone>(args: &[String]) -> i32 {
                 }
             }
             r.observe(root);
+        }
+        "bushy" => {
+            // medium-sized trees that are neither a chain nor a flat list: every new node is placed by one of the four insert
+            // forms next to / under a random earlier node (fan-out and depth both grow); then subtrees are moved, removed and
+            // recycled. Sizes sit between the exhaustively covered small forests and the 300 000-level / 700-wide probes.
+            r.reset(0);
+            let nodes: usize = get("--nodes", "0").parse().unwrap_or(0);
+            let nodes = if nodes > 0 { nodes } else { 40 + (seed % 5) as usize * 13 };          // 40 .. 92 unless --nodes is given
+            let root = r.call(&Call { op: "new".into(), a: 0, b: 0, v: 1, checked: false, r: vec![] }).new;
+            let mut all = vec![root];
+            let ins = ["append", "prepend", "insert_after", "insert_before"];
+            let bias = (seed % 3) as usize;   // 0: uniform target, 1: recent targets (deep), 2: early targets (broad)
+            for i in 1..nodes {
+                if r.broken {
+                    break;
+                }
+                let k = all.len();
+                let t = match bias {
+                    1 => all[k - 1 - r.rng.gen_range(0..k.min(4))],
+                    2 => all[r.rng.gen_range(0..k.min(6 + i / 8))],
+                    _ => all[r.rng.gen_range(0..k)],
+                };
+                if i % 3 == 0 {
+                    let d = r.call(&Call { op: "append_value".into(), a: t, b: 0, v: i as u32 + 1, checked: false, r: vec![] });
+                    if d.new != 0 {
+                        all.push(d.new);
+                    }
+                } else {
+                    let d = r.call(&Call { op: "new".into(), a: 0, b: 0, v: i as u32 + 1, checked: false, r: vec![] });
+                    if d.new == 0 {
+                        break;
+                    }
+                    // siblings of the first root are allowed too (top-level chains)
+                    let op = ins[r.rng.gen_range(0..4)];
+                    r.call(&Call { op: op.into(), a: t, b: d.new, v: 0, checked: i % 2 == 0, r: vec![] });
+                    all.push(d.new);
+                }
+            }
+            for s in [root, all[all.len() / 2], all[all.len() - 1]] {
+                if r.live_slots().contains(&s) {
+                    r.observe(s);
+                }
+            }
+            r.drive("bushy", events.max(30), nodes + 12);
+            let live = r.live_slots();
+            if !live.is_empty() && !r.broken {
+                let a = live[live.len() / 3];
+                r.observe(a);
+            }
         }
         "churn200" => {
             // a few hundred recycles of one slot, then ordinary life (used to compare builds, C17)
